@@ -63,9 +63,10 @@ for pid in props:
 man = {
  "version": 1,
  "setup_cmd": "./check build",
- "hooks": {"guard": "--cfg rodbus_verif", "enable": "none needed so far: the seam is dependency substitution via shadow manifests in /verif/sim/shadow (tokio -> simtokio, tokio-serial -> simserial); /repo sources are compiled unmodified",
-           "baseline_off_cmd": "cd /repo && cargo test --workspace --no-fail-fast --offline", "source_commits": [], "add_only": True},
- "engines": [{"name": "sim", "path": "sim", "serves_properties": sorted(CLAIMED), "kind_free_text": "deterministic discrete-event simulation of the unmodified rodbus tasks (tokio facade: network, serial, clock, executor, select! start index), seeded choice tape, shrinking, replay"}],
+ "hooks": {"guard": "--cfg rodbus_verif_shuttle", "enable": "only the shuttle engine sets it (RUSTFLAGS in /verif/shuttle_engine/.cargo/config.toml): it swaps `use std::sync::{Arc, Mutex}` in rodbus/src/server/handler.rs for shuttle's so that handler-mutex acquisitions are scheduling points. Everything else needs no hook: the seam is dependency substitution via shadow manifests (tokio -> simtokio, tokio-serial -> simserial) and /repo sources are compiled unmodified",
+           "baseline_off_cmd": "cd /repo && cargo test --workspace --no-fail-fast --offline", "source_commits": ["ff2eb44"], "add_only": True},
+ "engines": [{"name": "shuttle", "path": "shuttle_engine", "serves_properties": ["C19"], "kind_free_text": "shuttle (seeded random + PCT schedulers) over two threads: the simulation driver with the real C-ABI server and an application thread running database transactions; replayable schedule files"},
+  {"name": "sim", "path": "sim", "serves_properties": sorted(CLAIMED), "kind_free_text": "deterministic discrete-event simulation of the unmodified rodbus tasks (tokio facade: network, serial, clock, executor, select! start index), seeded choice tape, shrinking, replay"}],
  "checks": checks,
  "not_applicable": [{"property_id": p, "reason": PENDING_REASON} for p in props if p not in CLAIMED],
  "notes": "Exit codes: 0 held, 1 + VIOLATION line, 2 harness error. Fixed defects are listed in known_findings.json (status fixed; they relax nothing).",
